@@ -191,7 +191,7 @@ def gen_history(rng, schema, n_ops):
     ops = [{"op": "create_temporary", "schema": schema}, {"op": "set_guard", "on": True},
            {"op": "note", "names": [FO.hx(n) for n in FO.VALID_NAMES[:4] + FO.INVALID_NAMES[:2]], "ids": [0, -1, 999, 2 ** 62]}]
     # empty library: every observer
-    ops.append({"op": "observe_all"})
+    ops.append({"op": "observe_all", "probe_span": 4})
     for _ in range(n_ops):
         r = rng.random()
         lt, lc = st.live_tracks(), st.live_crates()
@@ -255,8 +255,8 @@ def gen_history(rng, schema, n_ops):
             if hs:
                 ops.append({"op": "handle_ops", "h": rng.choice(hs)})
         else:
-            ops.append({"op": "observe_all"})
-    ops.append({"op": "observe_all"})
+            ops.append({"op": "observe_all", "probe_span": 4})
+    ops.append({"op": "observe_all", "probe_span": 4})
     for h in list(st.tracks) + list(st.crates):
         ops.append({"op": "handle_ops", "h": h})
     ops.append({"op": "verify"})
